@@ -317,10 +317,13 @@ def count_leaves(tree, levels):
 
 @st.composite
 def swap_cases(draw):
-    levels = draw(st.sampled_from([2, 2, 2, 3]))
-    depth = 0 if levels == 2 else draw(st.sampled_from([0, 1, 1]))
+    levels = draw(st.sampled_from([2, 2, 2, 3, 3, 4]))
+    depth = 0 if levels == 2 else draw(st.sampled_from([0, 1, 1] if levels == 3 else [2, 2, 1, 0]))
     if levels == 2:
         tree = draw(swap_tree(2, [TOP, LEAF]))
+    elif levels == 4:
+        # (depth 2: the swapped rank sits below two outer ranks)
+        tree = draw(swap_tree(4, [[1, 2, 2, 3], [1, 2, 2], [1, 2, 3], [1, 2]]))
     elif depth == 0:
         tree = draw(swap_tree(3, [TOP, [1, 2, 3], [1, 2]]))
     else:
@@ -592,14 +595,16 @@ def check_swaps(case, rec):
     levels, depth, tree = case["levels"], case["depth"], case["tree"]
     radix = float("inf") if case["radix"] == "inf" else case["radix"]
     lat = case["latency"]
-    ids = ["M", "N", "K"][:levels] if levels == 3 else ["M", "K"]
+    ids = {2: ["M", "K"], 3: ["M", "N", "K"], 4: ["M", "N", "J", "K"]}[levels]
     spec = {"rank_ids": ids, "shape": [8] * levels, "default": 0, "tree": tree, "auth": True}
     t1 = build.build_tensor(spec, case["route"])
     spec2 = dict(spec, tree=revalue(tree, levels, case["vals2"]))
     t2 = build.build_tensor(spec2, "fiber")
     before = copy.deepcopy(t1)
 
-    groups = [tree] if depth == 0 else [ch for _, ch in tree]
+    groups = [tree]
+    for _ in range(depth):
+        groups = [ch for g in groups for _, ch in g]
     nlists = max([len(g) for g in groups] or [0])
 
     if radix == "N":
